@@ -997,10 +997,42 @@ def vec_into_iter(c):
     return None
 
 
-@model(r"^<std::vec::IntoIter<.*> as std::iter::Iterator>::map::<")
+@model(r"^<std::iter::Map<std::slice::Iter<.*>, .*> as std::iter::Iterator>::sum::<(usize|u64|u32)>$")
+def slice_map_sum(c):
+    """sum of f(x) over the elements of an input sequence: an uninterpreted but deterministic quantity, named after
+    (what f computes, which sequence) so that two evaluations agree.  Only for f = `|a| a.padded_len()`."""
+    v = c.args[0]
+    if isinstance(v, Iter) and len(v.maps) == 1 and v.kind == "iter":
+        f = c.deref(v.maps[0])
+        tag = f.tag if isinstance(f, Struct) else None
+        body = c.it.prog.bodies.get(tag) if tag else None
+        what = None
+        if body is not None:
+            from mir import Origins, strip
+            og = Origins(c.it.prog, body)
+            o = strip(og.local(0))
+            if o.k == "call" and "AttributeExt>::padded_len" in o.a[0] and "param(2)" in repr(o.a[2][0]):
+                what = "padded_len"
+        if what and len(v.len.t) == 1 and v.len.c == 0:
+            (lv, k_), = v.len.t.items()
+            if k_ == 1 and re.search(r"_a\d+(_|$)", lv):
+                name = "fS_%s_%s" % (what, lv)
+                c.it.purefun[name] = {lv}
+                e = Lin.var(name)
+                c.st.sys.add_ge(e)
+                # every padded_len() is at least 4 and a multiple of 4 (rule C03 padded-multiple-of-4): 4*len <= sum
+                c.st.sys.add_ge(e - v.len.scale(4))
+                c.it.assumed["sum-of-padded-len"] = "sum of padded_len() over a list is >= 4 * its length"
+                return [(c.st, Num(e))]
+    for a in c.args:
+        c.escape(a)
+    return [(c.st, c.top_ret())]
+
+
+@model(r"^<std::vec::IntoIter<.*> as std::iter::Iterator>::map::<|^<std::slice::Iter<.*> as std::iter::Iterator>::map::<")
 def vec_iter_map(c):
     v = c.args[0]
-    if isinstance(v, Iter) and v.items is not None:
+    if isinstance(v, Iter) and (v.items is not None or c.name.startswith("<std::slice::Iter")):
         return [(c.st, Iter(v.len, v.enumerated, v.kind, v.chunk, v.items, v.maps + (c.args[1],)))]
     c.escape(c.args[1])
     return [(c.st, c.top_ret())]
